@@ -1032,6 +1032,7 @@ func init() {
 			c.Scenarios = append(c.Scenarios, c12ProgScenario(rt))
 		}
 		c.Scenarios = append(c.Scenarios,
+			Scenario{Name: "admissions-after-mutation", Count: func(string) int { return c12SeqCount() }, Run: func(_ string, idx int, r *Result) { c12SeqRun(idx, r) }},
 			Scenario{Name: "spawn-arg", Count: cnt, Run: c12SpawnArg},
 			Scenario{Name: "spawn-arg-async", Count: cnt, Run: c12SpawnArgAsync},
 			Scenario{Name: "spawn-ret", Count: cnt, Run: c12SpawnRet})
